@@ -32,7 +32,7 @@ Qed.
 
 Lemma kstep_expand tbl s e : kbuf (kstep tbl s e) = urun (kbuf s) (expand tbl s e).
 Proof.
-  destruct e as [h n t c| |h n nav|]; cbn [kstep kbuf expand]; try reflexivity.
+  destruct e as [h n t c| |h n nav| |t c]; cbn [kstep kbuf expand]; try reflexivity.
   - symmetry. apply expand_key_run.
   - symmetry. apply expand_key_run.
 Qed.
@@ -85,13 +85,14 @@ Qed.
 
 Lemma wf_kstep tbl s e : wf (kbuf s) -> kev_ok e -> wf (kbuf (kstep tbl s e)).
 Proof.
-  intros Hwf Hok. destruct e as [h n t c| |h n nav|]; cbn [kstep kbuf].
+  intros Hwf Hok. destruct e as [h n t c| |h n nav| |t c]; cbn [kstep kbuf].
   - destruct (wf_kbody tbl s h n Hwf) as (Hh & Hu & Hr & Hb). destruct Hok as [Hc _].
     unfold wf, set_state, here; cbn [utext ucur ustack rstack ubad]. repeat split; try assumption; apply Hc.
   - apply wf_redo. exact Hwf.
   - pose proof (wf_kbody tbl s h n Hwf) as Hb. apply wf_set_cursor; [exact Hb|].
     apply fix_vi_cursor_range. destruct Hb as (Hh & _). exact Hh.
   - exact Hwf.
+  - apply wf_step; [exact Hwf|exact Hok].
 Qed.
 
 Lemma wf_krun tbl evs : forall s, wf (kbuf s) -> Forall kev_ok evs -> wf (kbuf (krun tbl s evs)).
@@ -114,12 +115,13 @@ Qed.
 
 Lemma expand_ok tbl s e : wf (kbuf s) -> kev_ok e -> Forall op_ok (expand tbl s e).
 Proof.
-  intros Hwf Hok. destruct e as [h n t c| |h n nav|]; cbn [expand].
+  intros Hwf Hok. destruct e as [h n t c| |h n nav| |t c]; cbn [expand].
   - apply expand_key_ok; [exact Hwf|apply Hok].
   - repeat constructor.
   - apply expand_key_ok; [exact Hwf|].
     apply fix_vi_cursor_range. destruct (wf_kbody tbl s h n Hwf) as (Hh & _). exact Hh.
   - constructor.
+  - constructor; [exact Hok|constructor].
 Qed.
 
 Lemma expand_all_ok tbl evs : forall s,
@@ -182,7 +184,7 @@ Proof.
   induction evs as [|e evs IH]; intros s Hc Ha Hp Hall; [repeat split; exact Hp|].
   inversion Hall as [|? ? He Hrest]; subst.
   cbn [krun fold_left]. change (fold_left (kstep tbl) evs ?x) with (krun tbl x evs).
-  destruct e as [h' n t c| |h' n nav|]; cbn [in_run_of] in He.
+  destruct e as [h' n t c| |h' n nav| |t' c']; cbn [in_run_of] in He.
   - subst h'.
     destruct (IH (kstep tbl s (Key h n t c)) Hc Ha eq_refl Hrest) as (I1 & I2 & I3).
     rewrite I1, I2, I3. cbn [kstep kbuf]. rewrite kbody_plain by exact Ha.
@@ -190,6 +192,7 @@ Proof.
   - contradiction.
   - contradiction.
   - rewrite cpr_is_invisible. apply IH; assumption.
+  - contradiction.
 Qed.
 
 Theorem group_one_snapshot_cpr tbl h s n t c evs :
@@ -214,7 +217,7 @@ Theorem group_one_snapshot tbl h s e evs :
   rstack (kbuf s') = [] /\ kprev s' = Some h.
 Proof.
   intros Hc Ha Hp Hall. inversion Hall as [|? ? He Hrest]; subst.
-  destruct e as [h' n t c| |h' n nav|]; cbn [is_key_of] in He; try contradiction. subst h'.
+  destruct e as [h' n t c| |h' n nav| |t' c']; cbn [is_key_of] in He; try contradiction. subst h'.
   apply group_one_snapshot_cpr; try assumption. apply Forall_is_key_in_run. exact Hrest.
 Qed.
 
@@ -305,7 +308,7 @@ Qed.
 
 Lemma redo_inv_step tbl s e : redo_inv tbl s -> redo_inv tbl (kstep tbl s e).
 Proof.
-  intros Hinv. destruct e as [h n t c| |h n nav|].
+  intros Hinv. destruct e as [h n t c| |h n nav| |t c].
   - intros h' Hp Hc Ha. cbn [kstep kprev] in Hp. injection Hp as <-.
     apply edit_step_clears; [exact Hinv|exact Ha|]. rewrite Hc. discriminate.
   - intros h Hp Hc Ha. cbn [kstep kprev kbuf] in *.
@@ -315,6 +318,7 @@ Proof.
   - intros h' Hp Hc Ha. cbn [kstep kprev] in Hp. injection Hp as <-.
     cbn [kstep kbuf set_state rstack]. apply kbody_clears; [exact Hinv|exact Ha|]. rewrite Hc. discriminate.
   - rewrite cpr_is_invisible. exact Hinv.
+  - intros h Hp. cbn [kstep kprev] in Hp. discriminate.
 Qed.
 
 Lemma redo_inv_run tbl evs : forall s, redo_inv tbl s -> redo_inv tbl (krun tbl s evs).
@@ -375,9 +379,10 @@ Qed.
 
 Lemma reach_step tbl s e :
   tbl_sane tbl -> wf (kbuf s) -> kev_ok e -> quiet tbl s e -> stack_inv tbl s ->
-  bottom_text (kbuf (kstep tbl s e)) = bottom_text (kbuf s) /\ stack_inv tbl (kstep tbl s e).
+  bottom_text (kbuf (kstep tbl s e)) = match e with KReset t _ => t | _ => bottom_text (kbuf s) end
+  /\ stack_inv tbl (kstep tbl s e).
 Proof.
-  intros Hsane Hwf Hok Hq Hinv. destruct e as [h n t c| |h n nav|].
+  intros Hsane Hwf Hok Hq Hinv. destruct e as [h n t c| |h n nav| |t c].
   - cbn [kstep kbuf]. cbn [quiet] in Hq.
     destruct (Z.eq_dec (r_act (lookup tbl h)) 0) as [Ha|Ha].
     2:{ (* an undo/redo handler: the dispatch ends on the text the handler left *)
@@ -407,24 +412,27 @@ Proof.
     + intros h' Hp Hc. cbn [kprev] in Hp. injection Hp as <-.
       cbn [kbuf set_state ustack]. apply kbody_stack_inv; assumption.
   - rewrite cpr_is_invisible. split; [reflexivity|exact Hinv].
+  - split; [reflexivity|]. intros h Hp. cbn [kstep kprev] in Hp. discriminate.
 Qed.
 
 Lemma reach_run tbl evs : forall s,
   tbl_sane tbl -> wf (kbuf s) -> Forall kev_ok evs -> all_quiet tbl s evs -> stack_inv tbl s ->
-  bottom_text (kbuf (krun tbl s evs)) = bottom_text (kbuf s).
+  bottom_text (kbuf (krun tbl s evs)) = ksession_start (bottom_text (kbuf s)) evs.
 Proof.
   induction evs as [|e evs IH]; intros s Hsane Hwf Hok Hq Hinv; [reflexivity|].
   inversion Hok; subst. destruct Hq as [Hq Hrest].
   destruct (reach_step tbl s e Hsane Hwf H1 Hq Hinv) as [Hb Hi].
   cbn [krun fold_left]. change (fold_left (kstep tbl) evs ?x) with (krun tbl x evs).
-  rewrite IH; [exact Hb|exact Hsane|apply wf_kstep; assumption|assumption|exact Hrest|exact Hi].
+  unfold ksession_start. cbn [fold_left].
+  fold (ksession_start (match e with KReset t _ => t | _ => bottom_text (kbuf s) end) evs).
+  rewrite IH; [rewrite Hb; reflexivity|exact Hsane|apply wf_kstep; assumption|assumption|exact Hrest|exact Hi].
 Qed.
 
 Theorem key_reaches_start tbl t0 c0 evs k :
   tbl_sane tbl -> 0 <= c0 <= len t0 -> Forall kev_ok evs -> all_quiet tbl (kfresh t0 c0) evs ->
   let s := kbuf (krun tbl (kfresh t0 c0) evs) in
   (length (ustack s) <= k)%nat ->
-  utext (iter_op Undo k s) = t0.
+  utext (iter_op Undo k s) = ksession_start t0 evs.
 Proof.
   intros Hsane Hc Hok Hq. cbn zeta. intros Hk.
   assert (Hwf0 : wf (kbuf (kfresh t0 c0))) by (apply wf_fresh; exact Hc).
@@ -448,7 +456,7 @@ Lemma modelled_quiet tbl evs : forall s, Forall (modelled tbl) evs -> all_quiet 
 Proof.
   induction evs as [|e evs IH]; intros s H; [exact I|].
   inversion H as [|? ? He Hrest]; subst. cbn [all_quiet]. split; [|apply IH; exact Hrest].
-  destruct e as [h n t c| |h n nav|]; cbn [quiet]; try exact I.
+  destruct e as [h n t c| |h n nav| |t c]; cbn [quiet]; try exact I.
   destruct He as [Ha Hc]. intros [Hx|Hx]; contradiction.
 Qed.
 
@@ -456,7 +464,7 @@ Theorem key_reaches_start_modelled tbl t0 c0 evs k :
   tbl_sane tbl -> 0 <= c0 <= len t0 -> Forall kev_ok evs -> Forall (modelled tbl) evs ->
   let s := kbuf (krun tbl (kfresh t0 c0) evs) in
   (length (ustack s) <= k)%nat ->
-  utext (iter_op Undo k s) = t0.
+  utext (iter_op Undo k s) = ksession_start t0 evs.
 Proof.
   intros Hsane Hc Hok Hm. apply key_reaches_start; try assumption. apply modelled_quiet. exact Hm.
 Qed.
@@ -495,3 +503,41 @@ Qed.
 
 Lemma save_before_always tbl prev h : r_cls (lookup tbl h) = 1 -> save_before tbl prev h = true.
 Proof. intros Hc. unfold save_before. rewrite Hc. reflexivity. Qed.
+
+(* ------------------------------------------------------------------ *)
+(* A new prompt on the same session *)
+
+(* Whatever came before: both stacks empty, no previous handler. *)
+Theorem kreset_restarts tbl s t c :
+  kstep tbl s (KReset t c) = mkkst (mkust t c [] [] (ubad (kbuf s))) None.
+Proof. reflexivity. Qed.
+
+(* so the rest of the session is a session from a fresh prompt *)
+Theorem krun_after_reset tbl s t c evs :
+  ubad (kbuf s) = false -> krun tbl s (KReset t c :: evs) = krun tbl (kfresh t c) evs.
+Proof. intros Hb. cbn [krun fold_left kstep ustep]. rewrite Hb. reflexivity. Qed.
+
+(* and the first key of the new prompt, if its binding is if_no_repeat, is not
+   a repeat: it snapshots the start text, and one undo after the run it starts
+   gives the start text and cursor back - even when the very same binding
+   handled the last key of the previous prompt. *)
+Theorem first_run_after_reset tbl h s t0 c0 n t c evs :
+  r_cls (lookup tbl h) = 2 -> r_act (lookup tbl h) = 0 ->
+  Forall (in_run_of h) evs -> 0 <= c0 <= len t0 -> ubad (kbuf s) = false ->
+  let s' := krun tbl s (KReset t0 c0 :: Key h n t c :: evs) in
+  utext (kbuf s') <> t0 ->
+  here (undo (kbuf s')) = (t0, c0).
+Proof.
+  intros Hc Ha Hall Hc0 Hb. cbn zeta. rewrite krun_after_reset by exact Hb. intros Hne.
+  assert (Hp : kprev (kfresh t0 c0) <> Some h) by discriminate.
+  destruct (group_one_undo_cpr tbl h (kfresh t0 c0) n t c evs Hc Ha Hp Hall (wf_fresh t0 c0 Hc0) Hne) as [H _].
+  exact H.
+Qed.
+
+Theorem new_prompt_restarts tbl s t c evs :
+  ubad (kbuf s) = false ->
+  kstep tbl s (KReset t c) = mkkst (mkust t c [] [] false) None /\
+  krun tbl s (KReset t c :: evs) = krun tbl (kfresh t c) evs.
+Proof.
+  intros Hb. split; [rewrite kreset_restarts, Hb; reflexivity|exact (krun_after_reset tbl s t c evs Hb)].
+Qed.
